@@ -18,6 +18,12 @@ func TestProp_Multi(t *testing.T) { PartMulti.Run(t) }
 // TestProp_SharedPlain: the concurrent part judged by the oracle alone (plain binary).
 func TestProp_SharedPlain(t *testing.T) { PartSharedPlain.Run(t) }
 
+// TestProp_AdvShared: different generators called at once, HardNodes on a clock that keeps moving (plain binary).
+func TestProp_AdvShared(t *testing.T) { PartAdv.Run(t) }
+
+// TestRace_Adv is the same part in the -race binary.
+func TestRace_Adv(t *testing.T) { PartRaceAdv.Run(t) }
+
 // TestEnum_HardEdges: the fixed boundary list (not a complete enumeration of anything).
 func TestEnum_HardEdges(t *testing.T) { PartHardEdges.RunCases(t, HardEdgeCases(), false) }
 
@@ -32,6 +38,8 @@ func TestReplay(t *testing.T) {
 	PartMulti.Replay(t, 1)
 	PartRace.Replay(t, 20)
 	PartSharedPlain.Replay(t, 20)
+	PartAdv.Replay(t, 20)
+	PartRaceAdv.Replay(t, 20)
 }
 
 // TestSelf_IntervalOracle checks the concurrent oracle itself on hand-made
